@@ -95,6 +95,8 @@ const PROBES: &[&str] = &[
     "print(\"{} {} {}\", 1.5, [1, \"a\"], ja); print(\"{}\"); print(\"{} {}\", 1); [-(-5), -(2.5), !ja, !(1 < 2)]",
     "[type(1), type(1.5), type(\"a\"), type([1]), type(ja), type(functie() { 1 })]",
     "float(\"abc\")",
+    "stel i = 0; stel n = 0; zolang i < 3 { i = i + 1; functie g(a) { als a == 2 { volgende; }; [a, 2.5] }; g(i); n = n + 1; }; [string(n), i]",
+    "stel i = 0; zolang i < 1 { i = i + 1; functie f() { stop } f() } \"klaar\"",
     "stel n = 0.0 / 0.0; stel i = 1.0 / 0.0; [n < 1.0, n <= 1.0, n > 1.0, n >= n, 1.0 <= n, n == n, n != n, i > n, i - i < 1.0, als n < 1.0 { 1 } anders { 2 }]",
     // texts that end in the first character of a two-character token (what follows the text in memory
     // must not matter)
